@@ -406,6 +406,8 @@ def run(col, configs, tier):
         guarded(col, rule_write_specials, facts)
         guarded(col, rule_sign_reaches_every_ok, facts)
         guarded(col, rule_special_sees_untouched_bytes, facts)
+        from rules import extra as X2b
+        guarded_soft(col, X2b.rule_special_tried_on_every_error, facts)
         guarded(col, rule_case_fold_table, facts)
         guarded(col, rule_special_classification, facts)
         from rules import extra as X2
